@@ -13,7 +13,7 @@ CtxKind(c) ==
   CASE c = "plain" -> "Block"
     [] c = "if_accept" -> "IfAccept"
     [] c \in {"if_reject", "if_else_if"} -> "IfReject"
-    [] c \in {"switch_case", "switch_default"} -> "Switch"
+    [] c \in {"switch_case", "switch_default", "switch_multi"} -> "Switch"
     [] c \in {"loop_body", "for_body", "while_body"} -> "LoopBody"
     [] OTHER -> "LoopContinuing"
 AllKinds == {"Block", "IfAccept", "IfReject", "Switch", "LoopBody", "LoopContinuing"}
